@@ -336,6 +336,69 @@ Proof.
   cbn in H. apply andb_true_iff in H. destruct H as [H1 H2]. split; [destruct l; [discriminate|congruence]|].
   intros t Ht. rewrite forallb_forall in H2. apply N.ltb_lt. now apply H2.
 Qed.
+
+(* ---------------------------------------------------------------- a rule group, a file: loadRule inside the loader's state *)
+(* loadRuleGroup runs loadRule on the rules of a group in order and stops at the first error; LoadFile does the same with the
+   groups.  Whatever the loader keeps from one rule to the next is abstract here (S): in a state s the variables that reach
+   checkBoundVars for rule r -- the filterInfo.Vars of that call of loadRule -- are [fst (info_of s r)], the state the next rule
+   sees is [snd (info_of s r)].                                                                                              *)
+Section Group.
+Variable S : Type.
+Variable info_of : S -> vrule -> list string * S.
+
+Fixpoint load_rules (s : S) (rs : list vrule) : bool * S :=
+  match rs with
+  | [] => (true, s)
+  | r :: rest => let (vs, s') := info_of s r in
+                 if validate_with vs r then load_rules s' rest else (false, s')
+  end.
+
+Fixpoint load_groups (s : S) (gs : list (list vrule)) : bool :=
+  match gs with
+  | [] => true
+  | g :: rest => let (ok, s') := load_rules s g in if ok then load_groups s' rest else false
+  end.
+
+(* what the regenerated loadRule establishes: the table is made anew for the rule and filled by newFilter from the rule's own
+   Where expression, whatever happened before *)
+Definition info_fresh : Prop := forall s r, fst (info_of s r) = where_vars r.
+
+Lemma load_rules_forallb : info_fresh -> forall rs s, fst (load_rules s rs) = forallb validate rs.
+Proof.
+  intros Hf. induction rs as [|r rest IH]; intros s; [reflexivity|]. cbn [load_rules forallb].
+  specialize (Hf s r). destruct (info_of s r) as [vs s']. cbn [fst] in Hf. subst vs. fold (validate r).
+  destruct (validate r); [now rewrite IH|reflexivity].
+Qed.
+
+Theorem load_groups_forallb : info_fresh -> forall gs s, load_groups s gs = forallb (forallb validate) gs.
+Proof.
+  intros Hf. induction gs as [|g rest IH]; intros s; [reflexivity|]. cbn [load_groups forallb].
+  pose proof (load_rules_forallb Hf g s) as H. destruct (load_rules s g) as [ok s']. cbn [fst] in H. subst ok.
+  destruct (forallb validate g); [now rewrite IH|reflexivity].
+Qed.
+
+(* a file that is accepted -- however many groups, however many rules, in whatever state each rule found the loader -- holds
+   only well-bound rules *)
+Theorem accepted_file_bound :
+  info_fresh -> flags_complete optab = true -> forall gs s, load_groups s gs = true ->
+  forall g r, In g gs -> In r g -> rule_wf r = true -> well_bound r.
+Proof.
+  intros Hf Hc gs s H g r Hg Hr Hw. rewrite (load_groups_forallb Hf) in H. rewrite forallb_forall in H.
+  specialize (H g Hg). rewrite forallb_forall in H. apply accepted_rule_bound; auto.
+Qed.
+End Group.
+
+(* the loader as it is: nothing survives a rule *)
+Definition no_state (s : unit) (r : vrule) : list string * unit := (where_vars r, s).
+Lemma no_state_fresh : info_fresh unit no_state.
+Proof. intros s r. reflexivity. Qed.
+Definition validate_file (gs : list (list vrule)) : bool := load_groups unit no_state tt gs.
+
+(* a loader that remembers, per group, the Where texts it has built a filter for and skips newFilter on a hit: the table of the
+   later rule stays empty.  (key r = the source text of r's Where expression; the memory is emptied by hand between groups in
+   the variant below, or never.) *)
+Definition text_cache (key : vrule -> string) (s : list string) (r : vrule) : list string * list string :=
+  if mem (key r) s then ([], s) else (where_vars r, key r :: s).
 End Validate.
 
 (* ---------------------------------------------------------------- interpolation is the same under every alternative *)
